@@ -883,7 +883,8 @@ def _ml_run(name, kind):
             # above SD (cdf rounds to 1).  With a pearl-chain TS ~ 1.005 this already holds at the Elementary start: the
             # search cannot move and the start is returned.  Not a wrong likelihood value: an underflow of an improbable one.
             sS = abs(math.log10(ra["TS"]) / _Z90)
-            if any((not rows[i][2]) and (math.log10(rows[i][0]) - math.log10(ra["SD"])) / sS > 8.2 for i in s["infinite"]):
+            zs = [((math.log10(rows[i][0]) - math.log10(ra["SD"])) / sS, rows[i][2]) for i in s["infinite"]]
+            if any((z > 8.2 and not fr) or (z < -37.5 and fr) for z, fr in zs):      # ... or cdf itself underflows for a fracture
                 ctx.label("library_likelihood_underflow")
                 own = la
         if math.isfinite(la) and not abs(own - la) <= 1e-6 * (1.0 + abs(la)):
